@@ -81,7 +81,7 @@ type Contracts struct {
 
 var clauseKinds = map[string]bool{"requires": true, "ensures": true, "invariant": true, "returns": true,
 	"fswrite": true, "assume": true, "assert": true, "params": true, "pure": true, "replay": true, "sweep": true,
-	"decreases": true, "opt": true, "frame": true, "impure": true, "guide": true, "at-call": true, "ghost": true, "sets": true, "slice-invariant": true, "watch": true, "ensures-bounded": true, "modifies": true, "each": true, "ensures-local": true, "assume-at-call": true, "havocs": true, "fsread": true}
+	"decreases": true, "opt": true, "frame": true, "impure": true, "guide": true, "at-call": true, "ghost": true, "sets": true, "slice-invariant": true, "watch": true, "ensures-bounded": true, "modifies": true, "each": true, "ensures-local": true, "assume-at-call": true, "closure-invariant": true, "defines": true, "havocs": true, "fsread": true}
 
 var theoremRe = regexp.MustCompile(`^(\S+)\s*\(([^)]*)\)\s*:\s*(.*)$`)
 var lemmaPatRe = regexp.MustCompile(`^([A-Za-z_][A-Za-z0-9_.]*)\(([^)]*)\)\s*`)
